@@ -24,7 +24,12 @@ type registration struct {
 // registrations resolves what the init functions register under each name, from the registration calls themselves:
 // Register…("name", Fn) with a constant name, or a loop over a table literal of {name, function, flag} records whose
 // fields are handed to the registration calls (the flag selecting RegisterImmediateFunction).
-func (c *Ctx) registrations() map[string]registration {
+func (c *Ctx) registrations() map[string]registration { return c.registrationsOf(false) }
+
+// topLevelRegistrations: the same for RegisterTopLevelFunction (the selector reader's `name=>` functions).
+func (c *Ctx) topLevelRegistrations() map[string]registration { return c.registrationsOf(true) }
+
+func (c *Ctx) registrationsOf(topLevel bool) map[string]registration {
 	out := map[string]registration{}
 	fnOf := func(v ssa.Value) *ssa.Function {
 		for {
@@ -61,12 +66,29 @@ func (c *Ctx) registrations() map[string]registration {
 		}
 		return -1
 	}
+	// table literals of the init functions (a package-level table is filled by the package initialiser, the loop over it
+	// runs in a declared init function): element index -> field index -> stored value
+	tables := map[*ssa.Alloc]map[int64]map[int]ssa.Value{}
+	var inits []*ssa.Function
 	for _, f := range c.P.ModFuncs {
-		if !strings.HasPrefix(f.Name(), "init") || f.Parent() != nil {
-			continue
+		if strings.HasPrefix(f.Name(), "init") && f.Parent() == nil {
+			inits = append(inits, f)
 		}
-		// table literals of the init function: element index -> field index -> stored value
-		tables := map[*ssa.Alloc]map[int64]map[int]ssa.Value{}
+	}
+	for _, pk := range c.P.Prog.AllPackages() {
+		if pk.Pkg != nil && strings.HasPrefix(pk.Pkg.Path(), modPath) {
+			if pi := pk.Func("init"); pi != nil {
+				dup := false
+				for _, f := range inits {
+					dup = dup || f == pi
+				}
+				if !dup {
+					inits = append(inits, pi)
+				}
+			}
+		}
+	}
+	for _, f := range inits {
 		allInstrs(f, func(_ *ssa.BasicBlock, in ssa.Instruction) {
 			st, ok := in.(*ssa.Store)
 			if !ok {
@@ -93,9 +115,11 @@ func (c *Ctx) registrations() map[string]registration {
 			}
 			tables[arr][k][fa.Field] = st.Val
 		})
+	}
+	for _, f := range inits {
 		allInstrs(f, func(b *ssa.BasicBlock, in ssa.Instruction) {
 			call, ok := in.(*ssa.Call)
-			if !ok || call.Common().StaticCallee() == nil || len(call.Common().Args) != 2 || !strings.HasPrefix(call.Common().StaticCallee().Name(), "Register") || strings.Contains(call.Common().StaticCallee().Name(), "TopLevel") {
+			if !ok || call.Common().StaticCallee() == nil || len(call.Common().Args) != 2 || !strings.HasPrefix(call.Common().StaticCallee().Name(), "Register") || strings.Contains(call.Common().StaticCallee().Name(), "TopLevel") != topLevel {
 				return
 			}
 			imm := strings.Contains(call.Common().StaticCallee().Name(), "Immediate")
